@@ -43,11 +43,14 @@ PROFILES = {
     # nothing but DATA and WINDOW_UPDATE on the wire: an upload must keep moving on the credit it is given, with no other frame to wake it
     "quiet": dict(max_connections=1, auto_credit=False, init_window=20000, ups=[70000, 200000], downs=[0, 10], p_winsettings=0.0, p_ping=0.0,
                   p_settings=0.0, allow_window_shrink=False, segment="coarse", init_max_streams=10, callers=2, end_with_data=True),
+    # the server answers (HEADERS) before the upload is complete and keeps handing out credit afterwards: the upload must go on
+    "early": dict(max_connections=1, auto_credit=False, init_window=1000, ups=[5000, 70000], downs=[0, 10], early_response=True, segment="coarse",
+                  init_max_streams=10, p_winsettings=0.0, allow_window_shrink=False, callers=2),
     # downloads that are read in full, held, closed unread, or closed after the first part: every byte of credit comes back
     "downloads": dict(max_connections=1, auto_credit=True, ups=[0], downs=[10, 3000, 70000], abandon=True, partial=True, segment="coarse",
                       init_max_streams=10, p_ping=0.1),
 }
-WANT = ["C13:", "C12:wedged", "C12:undisturbed-request-failed", "C12:server-protocol-error"]
+WANT = ["C13:", "C07:live-lock", "C12:wedged", "C12:undisturbed-request-failed", "C12:server-protocol-error"]
 
 
 def run(ctx, driver):
@@ -90,6 +93,7 @@ def run(ctx, driver):
     h2x.explore(ctx, rec, ID, PROFILES["tiny"], 40, 1000, WANT)
     h2x.explore(ctx, rec, ID, PROFILES["quiet"], 40, 1000, WANT)
     h2x.explore(ctx, rec, ID, PROFILES["downloads"], 60, 1500, WANT)
+    h2x.explore(ctx, rec, ID, PROFILES["early"], 40, 1000, WANT)
     # ---- downloads beyond the client's credit ---------------------------------------------------------------------------------
     runs = [dict(total=20_000_000), dict(total=70_000, frame=1, pad=255)]
     if not ctx.quick:
